@@ -55,6 +55,15 @@ def cases(tier, seed):
             out.append(('struct', name, cfg, seed))
     for cfg in ('gaussian-class', 'uniform-name'):
         out.append(('big', 70001, cfg, seed))
+    # a single variable in every container: the matrix is the 1 x 1 unit matrix labelled by that column
+    for cfg in ('default', 'gaussian-class'):
+        out.append(('one-column', 0, cfg, seed))
+    # E2 layer: ONE model object fitted (and queried) on another table with the same column names first: the correlation is
+    # that of the LAST fit
+    for cfg in ('default', 'uniform-name', 'kde-instance', 'dict'):
+        for t in tables.table_zoo(tier):
+            if t[4] <= 300 and t[0] <= 4:
+                out.append(('zoo-refit', t, cfg, seed))
     out.sort(key=lambda c: (c[0] != 'big', c[2] != 'default'))
     return out
 
@@ -84,13 +93,47 @@ def reference_corr(gm, df):
     return R, const, S
 
 
+def _one_column(r, case):
+    import pandas as pd
+    _, _, cfg, seed = case
+    x = stats.gamma(2.0).ppf(A.midpoints(35)) + 1.0
+    forms = {'ndarray (n,)': (x.copy(), [0]), 'ndarray (n,1)': (x.copy().reshape(-1, 1), [0]),
+             'DataFrame 1 column': (pd.DataFrame({'only': x}), ['only']), 'named Series': (pd.Series(x, name='s'), ['s']),
+             'DataFrame int label': (pd.DataFrame({7: x}), [7])}
+    for fname, (obj, labels) in forms.items():
+        tag = f'one variable given as {fname}, config {cfg}'
+        r.tr()
+        r.ev()
+        r.nontriv()
+        r.state(('one-column', fname, cfg))
+        try:
+            from copulas.multivariate import GaussianMultivariate
+            dist = tables.make_config(cfg, labels)
+            gm = GaussianMultivariate() if dist is None else GaussianMultivariate(distribution=dist)
+            gm.fit(obj)
+        except Exception as e:
+            r.violation(f'C02:fit-raises:{type(e).__name__}', f'{tag}: fit raised {type(e).__name__}: {e}', case=case)
+            continue
+        C = gm.correlation
+        ok = getattr(C, 'shape', None) == (1, 1) and list(C.index) == labels and list(C.columns) == labels and \
+            abs(float(np.asarray(C)[0, 0]) - 1.0) <= 2 * EPS
+        if not ok:
+            r.violation('C02:one-column', f'{tag}: correlation is {getattr(C, "shape", None)} labelled '
+                        f'{list(getattr(C, "index", []))[:4]}, expected the 1 x 1 unit matrix labelled {labels}', case=case)
+    r.hit('one-column')
+    r['sample'] = {'kind': 'one column', 'config': cfg, 'containers': list(forms)}
+    return r
+
+
 def run_case(case):
     kind, t, cfg, seed = case
     r = engine.new_result()
+    if kind == 'one-column':
+        return _one_column(r, case)
     r.state((kind, t, cfg))
-    if kind == 'zoo':
+    if kind in ('zoo', 'zoo-refit'):
         df, info = tables.gaussian_copula_table(t, A.shift_from_seed(seed))
-        tname = str(t)
+        tname = str(t) + (' (object previously fitted on another table and queried)' if kind == 'zoo-refit' else '')
     elif kind == 'big':
         df = tables.big_table(t)
         tname = f'big-{t}-rows'
@@ -102,7 +145,18 @@ def run_case(case):
     sig = 'C02'
     r.tr()
     try:
-        gm = tables.fit_gm(df, cfg)
+        if kind == 'zoo-refit':
+            other = (t[0], 'equi-' if t[1] != 'equi-' else 'ar1', 'bimodal' if t[2] != 'bimodal' else 'rotated', (), 30, t[5])
+            df0, _ = tables.gaussian_copula_table(other)
+            df0.columns = list(df.columns)
+            gm = tables.fit_gm(df0, cfg)
+            gm.probability_density(df0.iloc[:3])
+            gm.sample(2)
+            gm.fit(df.copy())
+            r.hit('refit-history')
+            r.tr(3)
+        else:
+            gm = tables.fit_gm(df, cfg)
     except Exception as e:
         r.violation(f'{sig}:fit-raises:{type(e).__name__}', f'{tag}: fit raised {type(e).__name__}: {e}', case=case)
         return r
